@@ -35,3 +35,23 @@ impl<M: Message<Response = ()>> BoxedFn<(DownTag, M)> {
         ensures r.upgrade.captured() == self.captured(), r.upgrade.cap0() == self.cap0(), r.upgrade.cap1() == self.cap1(), r.upgrade.code() == self.cap2(), r.id.0 as int == self.cap1()
     { unimplemented!() }
 }
+
+// the future `Sender::send` returns, as a VALUE (rule A1b; only a changed tree uses it): awaited, it is the waiting submit of `send`;
+// polled once and dropped (`FutureExt::now_or_never`) it has completed (Some) or not (None) - and in the latter case SinkExt::send may
+// already have put the payload into the queue before it started to wait
+#[verifier::external_body] pub struct SenderSendFut { x: u8 }
+impl SenderSendFut { pub uninterp spec fn chan(&self) -> int; pub uninterp spec fn pid(&self) -> int; }
+impl VFuture for SenderSendFut {
+    type Output = Result<(), ActorError>;
+    open spec fn pre(&self, w: &World) -> bool { true }
+    open spec fn done(&self, w0: &World, w1: &World, out: &Result<(), ActorError>) -> bool { submit_post(self.chan(), self.pid(), false, w0, w1, *out is Ok) }
+    open spec fn dropped(&self, w0: &World, w1: &World) -> bool { submit_try_post(self.chan(), self.pid(), false, w0, w1, true) || submit_try_post(self.chan(), self.pid(), false, w0, w1, false) }
+    uninterp spec fn ready_at(&self) -> nat;
+    #[verifier::external_body] fn await_(self, Tracked(w): Tracked<&mut World>) -> (r: Self::Output) { unimplemented!() }
+}
+impl<M: Message<Response = ()>> Sender<M> {
+    #[verifier::external_body]
+    pub fn send__fut(&self, msg: M) -> (r: SenderSendFut)
+        ensures r.chan() == self.chan(), r.pid() == task_uid(Sender__new__closure0__closure0__code(), mid_of(&msg), 0)
+    { unimplemented!() }
+}
